@@ -29,6 +29,111 @@ struct snapraid_task* (*io_parity_read)(struct snapraid_io* io, unsigned* levcur
 void (*io_parity_write)(struct snapraid_io* io, unsigned* levcur, unsigned* waiting_map, unsigned* waiting_mac) = 0;
 void (*io_write_preset)(struct snapraid_io* io, block_off_t blockcur, int skip) = 0;
 void (*io_write_next)(struct snapraid_io* io, block_off_t blockcur, int skip, int* writer_error) = 0;
+
+#ifdef SNAPRAID_VERIF
+/*
+ * Verification hook (compiled only with -DSNAPRAID_VERIF).
+ *
+ * Records one event (kind, actor, slot, position) at each hand-over of a slot of the
+ * ring and at the begin/end of each worker task, and optionally yields or sleeps there
+ * to perturb the schedule. Without the SNAPRAID_VERIF_IO_TRACE and
+ * SNAPRAID_VERIF_IO_YIELD environment variables it returns immediately.
+ */
+#define VERIF_EV_READ_BEGIN 1
+#define VERIF_EV_READ_END 2
+#define VERIF_EV_WRITE_BEGIN 3
+#define VERIF_EV_WRITE_END 4
+#define VERIF_EV_CALLER_NEXT 5
+#define VERIF_EV_CALLER_TASK 6
+#define VERIF_EV_CALLER_WRITE 7
+#define VERIF_EV_CALLER_WRITE_SKIP 8
+#define VERIF_EV_MAX (1 << 20)
+
+struct verif_event {
+	unsigned kind;
+	unsigned actor;
+	unsigned slot;
+	block_off_t pos;
+};
+
+static int verif_state; /* 0 not initialized, 1 enabled, -1 disabled */
+static const char* verif_trace;
+static unsigned long verif_yield_seed;
+static unsigned verif_yield_permille;
+static struct verif_event* verif_map;
+static unsigned verif_mac;
+
+static void verif_io_init(void)
+{
+	const char* e;
+
+	verif_mac = 0;
+	verif_trace = getenv("SNAPRAID_VERIF_IO_TRACE");
+	e = getenv("SNAPRAID_VERIF_IO_YIELD");
+	if (e)
+		sscanf(e, "%lu:%u", &verif_yield_seed, &verif_yield_permille);
+	if (verif_trace || e) {
+		if (verif_trace && !verif_map)
+			verif_map = malloc_nofail(VERIF_EV_MAX * sizeof(struct verif_event));
+		verif_state = 1;
+	} else {
+		verif_state = -1;
+	}
+}
+
+static void verif_io_event(unsigned kind, unsigned actor, unsigned slot, block_off_t pos)
+{
+	/* the initialization is done by io_init() before starting any thread */
+	if (verif_state <= 0)
+		return;
+
+	if (verif_map) {
+		unsigned i = __sync_fetch_and_add(&verif_mac, 1);
+		if (i < VERIF_EV_MAX) {
+			verif_map[i].kind = kind;
+			verif_map[i].actor = actor;
+			verif_map[i].slot = slot;
+			verif_map[i].pos = pos;
+		}
+	}
+
+	if (verif_yield_permille) {
+		unsigned long x = verif_yield_seed * 2654435761UL + kind * 40503UL + actor * 9973UL + slot * 31UL + pos * 7919UL;
+		x ^= x >> 13;
+		x *= 0x5bd1e995UL;
+		x ^= x >> 15;
+		if (x % 1000 < verif_yield_permille) {
+			if (x & 0x10000)
+				sched_yield();
+			else
+				usleep((x >> 20) % 200);
+		}
+	}
+}
+
+static void verif_io_dump(void)
+{
+	FILE* f;
+	unsigned i;
+
+	if (verif_state <= 0 || !verif_trace || !verif_map)
+		return;
+
+	f = fopen(verif_trace, "a");
+	if (f) {
+		unsigned mac = verif_mac < VERIF_EV_MAX ? verif_mac : VERIF_EV_MAX;
+		for (i = 0; i < mac; ++i)
+			fprintf(f, "%u %u %u %u\n", verif_map[i].kind, verif_map[i].actor, verif_map[i].slot, verif_map[i].pos);
+		fprintf(f, "end %u\n", verif_mac);
+		fclose(f);
+	}
+	verif_mac = 0;
+}
+#else
+#define verif_io_init() do { } while (0)
+#define verif_io_event(kind, actor, slot, pos) do { } while (0)
+#define verif_io_dump() do { } while (0)
+#endif
 void (*io_refresh)(struct snapraid_io* io) = 0;
 
 
@@ -451,6 +556,8 @@ static block_off_t io_read_next_thread(struct snapraid_io* io, void*** buffer)
 	/* set the buffer to use */
 	*buffer = io->buffer_map[io->reader_index];
 
+	verif_io_event(VERIF_EV_CALLER_NEXT, 0, io->reader_index, blockcur_caller);
+
 	/* signal all the workers that there is a new pending task */
 	thread_cond_broadcast_and_unlock(&io->read_sched, &io->io_mutex);
 
@@ -483,6 +590,8 @@ static void io_write_next_thread(struct snapraid_io* io, block_off_t blockcur, i
 		writer_error[i] = io->writer_error[i];
 		io->writer_error[i] = 0;
 	}
+
+	verif_io_event(skip ? VERIF_EV_CALLER_WRITE_SKIP : VERIF_EV_CALLER_WRITE, 0, io->writer_index, blockcur);
 
 	if (skip) {
 		/* skip the next write */
@@ -596,6 +705,8 @@ static struct snapraid_task* io_task_read_thread(struct snapraid_io* io, unsigne
 					struct snapraid_task* task;
 
 					task = &worker->task_map[io->reader_index];
+
+					verif_io_event(VERIF_EV_CALLER_TASK, i, io->reader_index, task->position);
 
 					thread_mutex_unlock(&io->io_mutex);
 
@@ -718,7 +829,9 @@ static void io_reader_worker(struct snapraid_worker* worker, struct snapraid_tas
 		/* complete a dummy task */
 		task->state = TASK_STATE_EMPTY;
 	} else {
+		verif_io_event(VERIF_EV_READ_BEGIN, worker - worker->io->reader_map, task - worker->task_map, task->position);
 		worker->func(worker, task);
+		verif_io_event(VERIF_EV_READ_END, worker - worker->io->reader_map, task - worker->task_map, task->position);
 	}
 }
 
@@ -776,7 +889,9 @@ static void* io_writer_thread(void* arg)
 		assert(task->state == TASK_STATE_READY);
 
 		/* work on the assigned task */
+		verif_io_event(VERIF_EV_WRITE_BEGIN, worker - worker->io->writer_map, task - worker->task_map, task->position);
 		worker->func(worker, task);
+		verif_io_event(VERIF_EV_WRITE_END, worker - worker->io->writer_map, task - worker->task_map, task->position);
 
 		/* save the resulting state */
 		latest_state = task->state;
@@ -927,6 +1042,8 @@ void io_init(struct snapraid_io* io, struct snapraid_state* state,
 
 	io->state = state;
 
+	verif_io_init();
+
 	/* initialize bandwidth limiting */
 	bw_init(&io->bw, state->opt.bwlimit);
 
@@ -1062,6 +1179,8 @@ void io_init(struct snapraid_io* io, struct snapraid_state* state,
 void io_done(struct snapraid_io* io)
 {
 	unsigned i;
+
+	verif_io_dump();
 
 	for (i = 0; i < io->io_max; ++i) {
 		free(io->buffer_map[i]);
